@@ -57,9 +57,8 @@ def writeUDiv (k : MemKind) (base : Addr) (s : MemState) (address : Addr) (data 
 
 /-- `Config.AddF256Func`: which addresses the coprocessor registers (flags: UMul = 1, UDiv = 4) -/
 def coprocSpecial (flags : Byte) (base : Addr) (a : Addr) : Option Bool :=   -- some false = multiplier, some true = divider
-  let off := a - base
-  if (flags &&& 1) != 0 && decide (off < 4) then some false
-  else if (flags &&& 4) != 0 && decide (4 ≤ off) && decide (off < 8) then some true
+  if (flags &&& 1) != 0 && decide (a - base < 4) then some false
+  else if (flags &&& 4) != 0 && decide (4 ≤ a - base) && decide (a - base < 8) then some true
   else none
 
 /-- a store through the coprocessor layer (the wrapper exists only when a unit is enabled) -/
